@@ -1022,6 +1022,48 @@ func main() {
 	} else {
 		die("executeCLIQuery not found")
 	}
+	// C09: where the whole-graph passes are. The recursive visitor must not loop over graph.Nodes; the
+	// entry point runs the declaration/invocation pass a fixed number of times and is not recursive.
+	visitorGraphLoops, entryRecursive, entryPassCalls, passGraphLoops := 0, 0, 0, 0
+	countGraphLoops := func(fd *ast.FuncDecl) int {
+		c := 0
+		ast.Inspect(fd.Body, func(n ast.Node) bool {
+			if r, ok := n.(*ast.RangeStmt); ok && strings.HasSuffix(src(r.X), ".Nodes") {
+				c++
+			}
+			return true
+		})
+		return c
+	}
+	if vf := findFunc(construct, visitorName); vf != nil {
+		visitorGraphLoops = countGraphLoops(vf)
+	}
+	if ef := findFunc(construct, "buildGraphFromAST"); ef != nil {
+		ast.Inspect(ef.Body, func(n ast.Node) bool {
+			if c, ok := n.(*ast.CallExpr); ok {
+				switch callName(c) {
+				case "buildGraphFromAST":
+					entryRecursive++
+				case "markInvokedMethods":
+					entryPassCalls++
+				}
+			}
+			return true
+		})
+		if visitorName == "buildGraphFromAST" {
+			entryRecursive = 1
+		}
+	} else {
+		die("buildGraphFromAST not found")
+	}
+	if pfn := findFunc(construct, "markInvokedMethods"); pfn != nil {
+		passGraphLoops = countGraphLoops(pfn)
+	}
+	fmt.Fprintf(&b, "def visitorName : String := %s\n", leanStr(visitorName))
+	fmt.Fprintf(&b, "def visitorGraphLoops : Nat := %d\n", visitorGraphLoops)
+	fmt.Fprintf(&b, "def entryPointCallsItself : Nat := %d\n", entryRecursive)
+	fmt.Fprintf(&b, "def entryPointPassCalls : Nat := %d\n", entryPassCalls)
+	fmt.Fprintf(&b, "def passNestedGraphLoops : Nat := %d\n", passGraphLoops)
 	fmt.Fprintf(&b, "def consoleReadersCreatedInLoop : Nat := %d\n", inLoop)
 	fmt.Fprintf(&b, "def consoleReadersCreatedOutsideLoop : Nat := %d\n", outside)
 	b.WriteString("\nend Cpf.Generated\n")
